@@ -9,8 +9,9 @@ use uuid::Uuid;
 
 pub fn http_call(addr: &str, r: &RawReq) -> Result<(HttpInfo, Vec<u8>), String> {
     let mut s = TcpStream::connect(addr).map_err(|e| format!("connect {addr}: {e}"))?;
-    s.set_read_timeout(Some(Duration::from_secs(60))).ok();
-    s.set_write_timeout(Some(Duration::from_secs(60))).ok();
+    let tmo = std::env::var("TCSS_SOCK_TIMEOUT").ok().and_then(|x| x.parse::<u64>().ok()).unwrap_or(60);
+    s.set_read_timeout(Some(Duration::from_secs(tmo))).ok();
+    s.set_write_timeout(Some(Duration::from_secs(tmo))).ok();
     let mut head: Vec<u8> = vec![];
     head.extend_from_slice(format!("{} {} HTTP/1.1\r\nHost: {}\r\nConnection: close\r\n", r.method, r.uri, addr).as_bytes());
     for (k, v) in &r.headers {
